@@ -568,6 +568,8 @@ def r15_5(ctx) -> None:
 
 
 def run(ctx) -> None:
+    from .c04 import r04_4
+    ctx.guard_as("R15.6", r04_4)  # what check_header validates is the union of protected, shared unprotected and per-recipient members
     ctx.guard(r15_1)
     ctx.guard(r15_2)
     ctx.guard(r15_3)
